@@ -127,6 +127,16 @@ def specimens(repo):
     if repo in _cache:
         return _cache[repo]
     out = {}
+    # static wire forms first (harness/c05wires.json, computed on the unchanged tree): a change that breaks
+    # from_text must not make the values it breaks disappear from the test set
+    try:
+        import json as _json
+        with open(os.path.join(os.path.dirname(os.path.abspath(__file__)), "c05wires.json")) as fh:
+            for k, ws in _json.load(fh)["wires"].items():
+                c, t = k.split(",")
+                out[(int(c), int(t))] = [bytes.fromhex(w) for w in ws]
+    except Exception:  # noqa
+        out = {}
     path = os.path.join(repo, "tests", "example")
     try:
         z = dns.zone.from_file(path, origin="example.", relativize=False, check_origin=False)
@@ -143,6 +153,7 @@ def specimens(repo):
             out.setdefault((int(rdclass), int(t)), []).append(rd.to_wire())
         except Exception:  # noqa
             out.setdefault((int(rdclass), int(t)), [])
+    out = {k: list(dict.fromkeys(v)) for k, v in out.items()}
     _cache[repo] = out
     return out
 
@@ -378,6 +389,8 @@ def well_formed(x, tname):
 def note_for(x, tname):
     for f in EMPTY_FIELDS.get(tname, []):
         if len(getattr(x, f)) == 0:
+            if tname == "KEY" and (int(x.flags) & 0xC000) == 0xC000:
+                continue  # NOKEY: nothing follows the algorithm (RFC 2535 7.1) and from_text reads no key
             return "empty-field-no-text"
     if tname == "WKS" and len(x.bitmap) > 0 and x.bitmap[-1] == 0:
         return "wks-trailing-zero-octets"
